@@ -764,12 +764,13 @@ def _first_nonempty(r):
 class RopeFile:
     """in-memory binary file over ropes with io.BytesIO semantics (positional overwrite)"""
 
-    def __init__(self, initial=b'', readable=True):
+    def __init__(self, initial=b'', readable=True, seekable=True):
         self.content = initial
         self.pos = 0
         self.closed = False
         self.log = []
         self._readable = readable
+        self._seekable = seekable           # False: a forward-only stream (pipe, socket): seek and tell raise io.UnsupportedOperation
 
     def _chk(self):
         if self.closed:
@@ -840,8 +841,13 @@ class RopeFile:
         self.pos = end
         return out
 
+    def seekable(self):
+        return self._seekable
+
     def seek(self, pos, whence=0):
         self._chk()
+        if not self._seekable:
+            raise _io.UnsupportedOperation('underlying stream is not seekable')
         if whence != 0:
             raise Unsupported('seek whence')
         self.log.append(('seek', pos))
@@ -850,6 +856,8 @@ class RopeFile:
 
     def tell(self):
         self._chk()
+        if not self._seekable:
+            raise _io.UnsupportedOperation('underlying stream is not seekable')
         return self.pos
 
     def close(self):
